@@ -7,6 +7,7 @@ open RV.C11
 #print axioms seq_fw_bw_agree
 #print axioms build_preserves_rel
 #print axioms path_correct_as_built
+#print axioms sparql_path_same
 #print axioms prefix_zero_pair_twice
 #print axioms prefix_falsy_end_ignored
 #print axioms prefix_seq_bw_loses_absent_end
